@@ -107,3 +107,15 @@ func TestRefusedRequestIsLoggedNotFatal(t *testing.T) {
 	}
 	alive(t, g, "refused requests with the access log on")
 }
+
+// An object PUT without Content-Length and without Transfer-Encoding has no body stream: the verifying readers were
+// wrapped around a nil reader and the first Read dereferenced it.
+func TestPutWithoutContentLengthIsAnswered(t *testing.T) {
+	g := gwtest.Start(t, gwtest.Options{})
+	g.MustStatus(g.Put(g.RootC, "/bkt", nil, nil), 200, "create bucket")
+	r := g.Do(gwtest.Req{Method: "PUT", Target: "/bkt/obj", Cred: g.RootC, NoContentLength: true})
+	if r.Err != nil {
+		t.Fatalf("no answer to PUT /bkt/obj without Content-Length: %v (a handler panic kills the gateway)", r.Err)
+	}
+	alive(t, g, "the PUT without Content-Length")
+}
